@@ -196,6 +196,19 @@ func workerMain(args []string) {
 	if dl > 0 {
 		c.Deadline = time.Unix(dl, 0)
 	}
+	OnHang = func(what, stacks string) {
+		// one execution of the code under test never finished: report it for the case being run and end the shard
+		fmt.Fprintln(os.Stderr, "execution hung:", what)
+		fmt.Fprintln(os.Stderr, stacks)
+		c.mu.Lock()
+		r := c.Res
+		r.Exhaustive = false
+		r.Notes = append(r.Notes, "one execution never finished (reported as a violation); the rest of this shard's cases were not run")
+		r.Violations = append(r.Violations, Violation{Signature: "execution-never-finishes", What: "one execution did not finish within the watchdog limit (the code under test hangs or spins): " + what, Replay: map[string]any{"hung": what}})
+		b, _ := json.Marshal(r)
+		_ = os.WriteFile(out, b, 0o644)
+		os.Exit(0)
+	}
 	if tier == "thorough" && !p.NoQuickPhase {
 		// phase 1: the quick tier's whole parameter space first (so that a deadline in the deeper pass never
 		// leaves late cases unexplored), phase 2: the thorough parameters
